@@ -11,6 +11,21 @@ CHECKS = {
  "C07": ("exploration", "bounded-exhaustive enumeration of writer/reader placements; driver sets recomputed from the emitted text",
          "all placements of up to 2 (thorough 3) accesses to one object over 8 site kinds x 6 access kinds; source-level expectation + driver table of the emitted architecture",
          "driver table computed by vfront; weakest reading for disjoint slices driven from different contexts (no rejection demanded)"),
+ "C03": ("model_checking", "explicit-state model checking (product BFS of emitted design x reference interpreter of the body; bounded-exhaustive body enumeration)",
+         "explicit-state product BFS of the emitted VHDL against a direct interpreter of the abstract sequential body over all 16 input valuations per clock; every body of a bounded grammar; continuous outputs compared before and registers after every clock",
+         "trusted base: vsim and the reference interpreter written from the property statement (verif/gen/seqbody.py)"),
+ "C04": ("model_checking", "explicit-state model checking over (state, reset) pairs: product BFS with reset levels and asynchronous reset pulses as environment events",
+         "C01/C03 program families x 4 reset flavours x objects with/without default/noreset x on_reset; BFS visits every reachable (state, reset) pair and compares with a reference that models reset as re-initialisation",
+         "inputs incl. reset are defined from time 0; single clock; vsim trusted"),
+ "C05": ("exploration", "bounded-exhaustive matrix of (source type, target type, assignment form) x all source values, simulated",
+         "all ordered type pairs over Bit/bool/BitVector/Unsigned/Signed[1..3(4)] + literals x 13 assignment forms; must-reject table from the statement; every accepted design simulated for every source value",
+         "vector->bool (truth test) and int->Bit/BitVector are left open (not covered by the statement)"),
+ "C08": ("exploration", "bounded-exhaustive control-flow shapes x def/use placements; dynamic POISON check under exhaustive input enumeration",
+         "all programs of a control-flow grammar x definition/use placements in clocked/clockless sequential contexts, helper returns and coroutine states; reference interpreter decides must-reject; accepted designs run in vsim POISON mode under every input valuation / reachable state",
+         "POISON: every process variable declared without initial value is a compiler intermediate"),
+ "C12": ("model_checking", "explicit-state equivalence checking (product BFS of hierarchical design x flat design) + structural comparison of the emitted text",
+         "instantiation trees (4 leaf templates x 8 topologies, slice/bit/view actuals, nesting, inline, OpenEntity/ConnectedEntity) rendered hierarchically and flat; BFS over the product under all inputs; port lists, port maps, entity order, to_dir files compared with the source",
+         "flat rendering calls the same logic function on the same actuals; vsim trusted"),
 }
 ORDER = sorted(CHECKS)
 NA = []
